@@ -53,7 +53,7 @@ def run(tier, seed):
     rr = replay_radius(_O())
     results.append(runner.Result("C16.bounded.real_unclipped_cells_report_at_least_twice_the_distance_to_their_farthest_corner", "R", "refuted" if rr["reproduced"] else "discharged", 0.0, "replay",
                                  repr(rr)[:2000] if rr["reproduced"] else "", "Voronoi::build with a single generator (public API, real crate)",
-                                 bounded="9 single-generator tessellations (1D/2D/3D, off-centre generators, non-cubic boxes)",
+                                 bounded="27 single-generator tessellations (1D/2D/3D, off-centre generators, non-cubic boxes at the origin and 1e5 / 3e7 away from it)",
                                  counterexample=rr if rr["reproduced"] else None, replay={"reproduced": rr["reproduced"], "mismatch": rr.get("runs")}))
     results += kani.run_specs("C16", e3sets.SAFETY, tier)
     fns.append({"fn": e3sets.U_SAFETY, "backend": "Kani on the real crate (bounded)"})
@@ -113,14 +113,17 @@ def replay_radius(ob):
     from ..runner import replay_requests
     reqs = []
     for d in (3, 2, 1):
-        for g in ([0.1, 0.9, 0.5], [0.5, 0.5, 0.5], [0.85, 0.2, 0.1]):
-            gg = [g[0], g[1] if d >= 2 else 0.0, g[2] if d == 3 else 0.0]
-            reqs.append({"op": "build", "gens": [gg], "anchor": [0, 0, 0], "width": [1.0, 2.0 if d >= 2 else 1.0, 1.5 if d == 3 else 1.0], "dim": d})
+        for off in (0.0, 1.0e5, -3.0e7):        # boxes far from the origin too: the radius must not depend on where the box sits
+            for g in ([0.1, 0.9, 0.5], [0.5, 0.5, 0.5], [0.85, 0.2, 0.1]):
+                w = [1.0, 2.0 if d >= 2 else 1.0, 1.5 if d == 3 else 1.0]
+                an = [off, off if d >= 2 else 0.0, off if d == 3 else 0.0]
+                gg = [an[0] + g[0] * w[0], an[1] + g[1] * w[1] if d >= 2 else 0.0, an[2] + g[2] * w[2] if d == 3 else 0.0]
+                reqs.append({"op": "build", "gens": [gg], "anchor": an, "width": w, "dim": d})
     bad = []
     for rq, a in zip(reqs, replay_requests(reqs, timeout=120)):
         if "cells" not in a: continue
-        g, w, d = rq["gens"][0], rq["width"], rq["dim"]
-        far = sum(max(g[i], w[i] - g[i]) ** 2 for i in range(d)) ** 0.5
+        g, w, d, an = rq["gens"][0], rq["width"], rq["dim"], rq["anchor"]
+        far = sum(max(g[i] - an[i], an[i] + w[i] - g[i]) ** 2 for i in range(d)) ** 0.5
         sr = a["cells"][0]["safety_radius"]
-        if not sr >= 2 * far * (1 - 1e-12): bad.append({"request": rq, "reported_safety_radius": sr, "twice_the_distance_to_the_farthest_corner": 2 * far})
+        if not sr >= 2 * far * (1 - 1e-7): bad.append({"request": rq, "reported_safety_radius": sr, "twice_the_distance_to_the_farthest_corner": 2 * far})
     return {"reproduced": bool(bad), "runs": bad[:2], "what": "reported safety radius of a single-generator cell is below twice the distance to its farthest corner"}
